@@ -149,6 +149,8 @@ pub struct Ref {
     bad_streak: u32,
     /// the last stop was a runtime error: a following CONT is a grey zone
     cont_after_error: bool,
+    /// the DATA position after an edit is not settled by the manual
+    data_unknown: bool,
 }
 
 pub fn stmt_kind(s: &Stmt) -> &'static str {
@@ -260,6 +262,7 @@ impl Ref {
             used_replies: vec![],
             bad_streak: 0,
             cont_after_error: false,
+            data_unknown: false,
         };
         r.set_program(prog);
         r
@@ -283,6 +286,14 @@ impl Ref {
         }
         self.cont = None;
         self.cont_after_error = false;
+    }
+
+    /// An edit typed at the prompt: new program text, pending execution state discarded,
+    /// DATA position unknown until RUN / CLEAR / RESTORE.
+    pub fn edit_program(&mut self, prog: &Program) {
+        self.set_program(prog);
+        self.stack.clear();
+        self.data_unknown = true;
     }
 
     fn collect_data(&mut self, line: usize, stmts: &[Stmt]) {
@@ -891,7 +902,17 @@ impl Ref {
             } else {
                 self.type_of(p)
             };
-            frame.insert(p.text(), Ref::convert(ty, v)?);
+            match Ref::convert(ty, v) {
+                Ok(c) => {
+                    frame.insert(p.text(), c);
+                }
+                Err(e) => {
+                    if def_line != self.cur_line {
+                        self.grey("runtime error inside a user function body defined on another line");
+                    }
+                    return Err(e);
+                }
+            }
         }
         self.fn_depth += 1;
         self.max_depth = self.max_depth.max(self.fn_depth);
@@ -1007,6 +1028,7 @@ impl Ref {
         self.fns.clear();
         self.stack.clear();
         self.data_ptr = 0;
+        self.data_unknown = false;
         self.cont = None;
         self.cont_after_error = false;
     }
@@ -1508,6 +1530,9 @@ impl Ref {
                 Ok(Flow::Next)
             }
             Stmt::Read(targets) => {
+                if self.data_unknown {
+                    self.grey("READ after an edit without RUN / CLEAR / RESTORE in between");
+                }
                 for t in targets {
                     let v = match self.data.get(self.data_ptr) {
                         Some((_, v)) => v.clone(),
@@ -1519,6 +1544,7 @@ impl Ref {
                 Ok(Flow::Next)
             }
             Stmt::Restore(t) => {
+                self.data_unknown = false;
                 match t {
                     None => self.data_ptr = 0,
                     Some(t) => {
@@ -1709,7 +1735,35 @@ impl Ref {
                     }
                 }
             }
-            Stmt::ListCmd(..) | Stmt::DeleteCmd(..) | Stmt::Raw(_) => {
+            Stmt::ListCmd(a, b) => {
+                // lists the stored program (rendered text is a fixed point for generated programs);
+                // every listed line ends the screen line
+                let lo = match a {
+                    None => 0u32,
+                    Some(Target::Abs(n)) => *n as u32,
+                    Some(Target::L(i)) => self.prog.lines.get(*i).map(|l| l.num as u32).unwrap_or(0),
+                };
+                let hi = match (a, b) {
+                    (_, Some(Target::Abs(n))) => *n as u32,
+                    (_, Some(Target::L(i))) => self.prog.lines.get(*i).map(|l| l.num as u32).unwrap_or(65529),
+                    (Some(_), None) => lo,
+                    (None, None) => 65529,
+                };
+                if in_prog {
+                    self.grey("LIST inside a program");
+                }
+                for i in 0..self.prog.lines.len() {
+                    let n = self.prog.lines[i].num as u32;
+                    if n >= lo && n <= hi {
+                        let t = render_line(&self.prog, i);
+                        self.out.push_str(&t);
+                        self.out.push('\n');
+                        self.col = 0;
+                    }
+                }
+                Ok(Flow::Next)
+            }
+            Stmt::DeleteCmd(..) | Stmt::Raw(_) => {
                 self.grey("statement not interpreted by the reference model");
                 Ok(Flow::Next)
             }
